@@ -56,8 +56,11 @@ func scenC18(r *Run, job *Job) {
 	hookWork := []time.Duration{0, hook / 2, hook - time.Millisecond}[t.Draw(3)] // how long the hook runs when it completes
 	overrunBy := []time.Duration{time.Millisecond, 100 * time.Millisecond, 2 * time.Second}[t.Draw(3)]
 	nRestores := 1 + t.Draw(2)
-	if mode == "overrun" && t.Chance(1, 4) {
-		// boundary: a hook timeout of 0 ms - a runtime that does not answer at once has overrun it
+	if mode == "overrun" && len(r.Holds) == 0 && t.Chance(1, 4) {
+		// boundary: a hook timeout of 0 ms - a runtime that does not answer at once has overrun it. Only in runs
+		// without a hold: a restore that is descheduled until the runtime has answered finds both cases of the
+		// emulator's select ready (deadline passed, runtime ready) and Go picks at random - either outcome is
+		// legitimate then and the run would not replay (found by the thorough tier, seed 1360801)
 		hook = 0
 	}
 	var script []Op
